@@ -316,10 +316,12 @@ def run(rep, tier, root=None):
     else:
         val, idx = st[0][3], st[0][2]
         lv, rng = lp[0][2], lp[0][3]
-        ok = ring_average(rep, h, val, lv, data)
+        # the ring number is the slot the average is stored in; the loop's own variable is the one the slot is affine in
+        lsyms = sorted(set(x for x in (idx.atoms() if isinstance(idx, Rat) else ()) if isinstance(x, Sym) and "loopvar" in x.flags), key=lambda x: x.name)
+        ok = ring_average(rep, h, val, idx if isinstance(idx, Rat) else lv, data)
         alloc = [c for c in I4.call_log if c[0] == h.fq and c[1].split(".")[-1] in ("empty", "zeros")]
-        if len(alloc) == 1 and alloc[0][2] and isinstance(alloc[0][2][0], Rat):
-            okc, why = coverage(idx, lv.single_atom(), rng, alloc[0][2][0])
+        if len(alloc) == 1 and alloc[0][2] and isinstance(alloc[0][2][0], Rat) and len(lsyms) == 1 and isinstance(rng, RangeVal):
+            okc, why = coverage(idx, lsyms[0], rng, alloc[0][2][0])
             if okc is None:
                 rep.unknown("B4.allocation-coverage", h.fq, why, h.where())
             else:
@@ -452,8 +454,14 @@ def ring_average(rep, h, val, lv, data):
             cp, cn = pos.args[1].single_atom(), neg.args[1].single_atom()
             same_q = cp.args[0] == cn.args[0] and same_value(cp.args[1], cn.args[1])
             diff = cp.args[2] - cn.args[2]
+            # in terms of the ring number k >= 0 (the slot the average is stored in): k = loop variable + b
+            ring = Sym("ring#", ("int",))
+            lsy = [x for x in lv.atoms() if isinstance(x, Sym) and "loopvar" in x.flags] if isinstance(lv, Rat) else []
+            if len(lsy) == 1 and (lv - Rat.atom(lsy[0])).is_const():
+                b_ = lv - Rat.atom(lsy[0])
+                diff = diff.subst(lambda a: (Rat.atom(ring) - b_) if a == lsy[0] else None)
             nonneg = diff.terms() is not None and all(complex(c).real >= 0 and abs(complex(c).imag) == 0 and
-                                                       all(a == lv.single_atom() for a, e in mth) for c, mth in diff.terms())
+                                                       all(a == ring for a, e in mth) for c, mth in diff.terms())
             ok = same_q and nonneg
             rep.check(ok, "B4.nested-rings", h.fq + ": W = circle(r_outer) - circle(r_inner) on the same grid, r_outer >= r_inner",
                       "ring masks: same grid/centre %s; r_outer^2 - r_inner^2 = %s" % (same_q, nf(diff)), h.where())
